@@ -64,6 +64,9 @@ ASSUMPTIONS = [
     "function) are accepted; an instance attribute assigned over a property of the same name: either",
     "`while` / `match` blocks are not among the blocks the property names: names bound inside them may or may not be members; definitions nested in "
     "`__init__` must not raise and must not become class members, where they are recorded is not judged",
+    "instance attributes come only from an `__init__` defined in a class body: functions called __init__ at module level or nested in functions, "
+    "and `self.x = ...` in other functions/methods, bind nothing; a class-level or instance `__all__` is an ordinary attribute (is_exported is "
+    "False for class members: exported = listed in the parent module's __all__)",
     "exports are those of the surviving `__all__` binding (a conditional re-assignment that does not displace the existing attribute leaves them "
     "unchanged; where the surviving binding is open, exports are not judged), extended by later module-level `__all__ += [...]`",
     "an attribute without own docstring that re-binds an earlier binding of the same name may carry that earlier docstring (documented forwarding) or none",
@@ -558,6 +561,13 @@ def features(case, binder: Binder, text: str) -> tuple:
                     cls.add("cond-reassign")
                     if any(p.kind == "attribute" for p in hist[:i]):
                         cls.add("cond-reassign-over-attr")
+                    if any(p.kind != "attribute" for p in hist[:i]):
+                        # the statement only gives the rule for attributes: either binding accepted (see findings/C01.md)
+                        cls.add("open:cond-reassign-over-" + "/".join(sorted({p.kind for p in hist[:i] if p.kind != "attribute"})))
+                if scope.kind == "module" and name == "__init__" and h.kind == "function":
+                    cls.add("module-level-__init__")
+                if scope.kind == "class" and name == "__all__":
+                    cls.add("instance-__all__" if h.via_init is not None else "class-level-__all__")
                 if h.via_init is not None:
                     cls.add("init-attr")
                     nontrivial = True
@@ -610,6 +620,8 @@ def features(case, binder: Binder, text: str) -> tuple:
             k = st_.get("k")
             if k == "idef":
                 cls.add("init-nested-" + st_["form"])
+            elif k == "def" and c01_mod.TAILS[st_.get("tail", 0)] in ("selfattr", "nested_init") and st_.get("name") != "__init__":
+                cls.add("self-assign-outside-class-__init__")
             elif k in ("while", "match"):
                 cls.add("open-block:" + k)
             elif k == "if" and (st_.get("eliftc") and st_.get("elifs")):
